@@ -790,10 +790,12 @@ func (r *Raft) submitReadOnlyOperation(
 		readIndex = r.log.LastIndex()
 	}
 
+	r.operationManager.readSequence++
 	operation := &Operation{
 		Bytes:         operationBytes,
 		OperationType: readOnlyType,
 		readIndex:     readIndex,
+		sequence:      r.operationManager.readSequence,
 	}
 	r.operationManager.pendingReadOnly[operation] = operationFuture.responseCh
 
@@ -987,25 +989,34 @@ func (r *Raft) AppendEntries(request *AppendEntriesRequest, response *AppendEntr
 
 // sendAppendEntriesToPeers sends an AppendEntries RPC to all nodes.
 func (r *Raft) sendAppendEntriesToPeers() {
+	// This round of requests can only confirm leadership for the read-only
+	// operations that have been submitted so far.
+	readSequence := r.operationManager.readSequence
+
 	// Handle the single node cluster case.
 	if r.isSingleServerCluster() {
 		if r.log.LastIndex() > r.commitIndex {
 			r.commitCond.Broadcast()
 		}
-		r.tryApplyReadOnlyOperations()
+		r.tryApplyReadOnlyOperations(readSequence)
 	}
 
 	numResponses := 1
 	for id, address := range r.configuration.Members {
 		if id != r.id {
-			go r.sendAppendEntries(id, address, &numResponses)
+			go r.sendAppendEntries(id, address, &numResponses, readSequence)
 		}
 	}
 }
 
 // sendAppendEntries sends an AppendEntries RPC to a node with the provided ID
 // and address.
-func (r *Raft) sendAppendEntries(id string, address string, numResponses *int) {
+func (r *Raft) sendAppendEntries(
+	id string,
+	address string,
+	numResponses *int,
+	readSequence uint64,
+) {
 	r.mu.Lock()
 	defer r.mu.Unlock()
 
@@ -1062,6 +1073,12 @@ func (r *Raft) sendAppendEntries(id string, address string, numResponses *int) {
 		return
 	}
 
+	// Ignore the response if the request was sent in a previous term of this node. It says
+	// nothing about the log or the leadership of the current term.
+	if r.currentTerm != request.Term {
+		return
+	}
+
 	// Become a follower if a follower has a more up-to-date term.
 	if response.Term > r.currentTerm {
 		r.becomeFollower(id, response.Term)
@@ -1073,7 +1090,7 @@ func (r *Raft) sendAppendEntries(id string, address string, numResponses *int) {
 	if numResponses != nil && r.isVoter(id) {
 		*numResponses += 1
 		if r.hasQuorum(*numResponses) {
-			r.tryApplyReadOnlyOperations()
+			r.tryApplyReadOnlyOperations(readSequence)
 			numResponses = nil
 		}
 	}
@@ -1974,8 +1991,8 @@ func (r *Raft) stepdown() {
 
 // tryApplyReadOnlyOperations renews the lease and notifies the read-only
 // loop that it may be possible to apply some read-only operations.
-func (r *Raft) tryApplyReadOnlyOperations() {
-	r.operationManager.markAsVerified()
+func (r *Raft) tryApplyReadOnlyOperations(readSequence uint64) {
+	r.operationManager.markAsVerifiedThrough(readSequence)
 	r.operationManager.leaderLease.renew()
 	r.operationManager.shouldVerifyQuorum = true
 	r.readOnlyCond.Broadcast()
